@@ -683,7 +683,7 @@ fn cmd_check(prop_s: &str, tier: &str) -> i32 {
         .set("counters", others)
         .set("distinct_states", J::u(states.len() as u64))
         .set("distinct_transitions", J::u(transitions.len() as u64))
-        .set("state_measure", J::s(if prop == Prop::C11 { "n/a for C11 (see distinct_scenarios)" } else { "abstract state = live id -> (has tree, key, kind, number of imports); transition = (state, operation kind, fault kind that fired)" }))
+        .set("state_measure", J::s(if prop == Prop::C11 { "C11: distinct_states = distinct execution schedules (script of API calls incl. detours, caller thread of every call, hash-key policy and key, repetitions, thread reuse and warm-up); transitions n/a" } else { "abstract state = live id -> (has tree, key, kind, number of imports); transition = (state, operation kind, fault kind that fired)" }))
         .set("selfcheck_determinism", selfcheck_json)
         .set("seam_audit", audit_json)
         .set("known_findings_matched", J::Arr(known_hits.iter().map(|(s, (r, wh))| J::obj().set("signature", J::s(s.clone())).set("first_run", J::u(*r as u64)).set("what", J::s(wh.clone()))).collect()))
